@@ -169,7 +169,7 @@ def _svc_common(formulas, **kw):
 
 PARTS = {
     "svc_talk": _svc_common({"C20.TwoResponses": "C20", "C20.NotAnsweredOnce": "C20", "C20.SpuriousResponse": "C20", "C20.AfterShutdown": "C20"},
-        spec="MC_Talk.tla", mc={"quick": ["MC_Talk.cfg"], "thorough": ["MC_Talk.cfg"]},
+        spec="MC_Talk.tla", mc={"quick": ["MC_Talk.cfg"], "thorough": ["MC_Talk.cfg"]}, crash_formula="C20.AfterShutdown",
         goals_cfg="MC_Talk.cfg", goals=["GoalDropAfterShutdown", "GoalRespondAfterShutdown"],
         sim={"quick": [dict(cfg="MC_Talk_sim.cfg", num=60, depth=14)], "thorough": [dict(cfg="MC_Talk_sim.cfg", num=1500, depth=20)]},
         required=lambda events: [n for n in ["talk_respond", "talk_drop", "shutdown"] if not any(e["op"]["o"] == n for e in events)]),
@@ -355,7 +355,7 @@ _CODEC_ASSUME = [
     "derived from valid ones by bit flips, truncation and type confusion",
 ]
 PARTS["pcodec"] = dict(
-    component="pcodec", spec="MC_PacketCodec.tla",
+    component="pcodec", spec="MC_PacketCodec.tla", crash_formula="C05.Panic",
     mc={"quick": ["MC_PacketCodec.cfg"], "thorough": ["MC_PacketCodec.cfg"]},
     goals_cfg=None, goals=[], sim={"quick": [], "thorough": []},
     generate=codec_gen.behaviours("MC_PacketCodec_emit.cfg", {"quick": 8, "thorough": 64}),
@@ -372,7 +372,7 @@ PARTS["pcodec"] = dict(
     ],
 )
 PARTS["rcodec"] = dict(
-    component="rcodec", spec="MC_RpcCodec.tla",
+    component="rcodec", spec="MC_RpcCodec.tla", crash_formula="C06.Panic",
     mc={"quick": ["MC_RpcCodec.cfg"], "thorough": ["MC_RpcCodec.cfg"]},
     goals_cfg=None, goals=[], sim={"quick": [], "thorough": []},
     generate=codec_gen.behaviours("MC_RpcCodec_emit.cfg", {"quick": 8, "thorough": 64}),
